@@ -8,6 +8,7 @@
 //! * `enumerate` – odometers: all sequences up to a length over an alphabet, products, subsets
 pub mod bfs;
 pub mod enumerate;
+pub mod logging;
 pub mod run;
 pub mod sched;
 
